@@ -434,6 +434,7 @@ class StmtMixin:
             self.fact(head, K.evaluate(s, ns_head))
         self.drain_axioms()
         if omp is not None:
+            self.auto_invariant_cache = auto
             self.check_drf(head, node, omp, init, cond, inc, body, ordinal)
         # body path
         b = head.copy()
@@ -676,6 +677,16 @@ class StmtMixin:
             k = self.static_int(kids(i2)[1])
             if k is not None and k > 0:
                 step = k if i2["opcode"] == "+=" else -k
+        elif i2.get("kind") == "BinaryOperator" and i2.get("opcode") == "=" and strip(kids(i2)[0]).get("kind") == "DeclRefExpr" \
+                and strip(kids(i2)[0])["referencedDecl"]["name"] == ivar:
+            # i = i + k  /  i = i - k
+            rhs = strip(kids(i2)[1])
+            if rhs.get("kind") == "BinaryOperator" and rhs.get("opcode") in ("+", "-"):
+                a, b = [strip(x) for x in kids(rhs)]
+                if a.get("kind") == "DeclRefExpr" and a["referencedDecl"]["name"] == ivar:
+                    k = self.static_int(b)
+                    if k is not None and k > 0:
+                        step = k if rhs["opcode"] == "+" else -k
         if step is None:
             return out
         # i must only be modified by the increment; the bound expression must be loop-invariant
@@ -809,7 +820,7 @@ class StmtMixin:
         omp["loopvar"] = ivar
         v2, m2, c2, d2 = set(), set(), {}, set()
         self.scan_writes(body, v2, m2, c2, d2)
-        priv = omp["private"] | omp["firstprivate"] | {ivar}
+        priv = omp["private"] | omp["firstprivate"] | {ivar} | set(getattr(self, "region_private", ()))
         tag = "loop%d" % ordinal
         for v in sorted(v2 - d2):
             if v in priv:
@@ -831,7 +842,8 @@ class StmtMixin:
             iv = smt.fresh("%s_it%d" % (ivar, it), smt.I)
             s.vars[ivar] = (Sc(iv, self.var_types[ivar]), z3.BoolVal(True))
             for a in self.auto_invariant_cache or []:
-                pass
+                # the range invariant of the canonical loop (e.g. 0 <= i) holds for every iteration value
+                s.pc.append(a(s))
             for v in omp["private"]:
                 if v == ivar or v not in s.vars:
                     continue
